@@ -145,6 +145,7 @@ def _routine_arg(b, pr):
 c = method('_param_decl', 'NAME', serves=('C06', 'C03'), setup_extra=_routine_arg)
 c.loop(0, ['errs() == old(errs())', 'tokens_consumed() > old(tokens_consumed())'], **PL.cursor_loop(keep=('name',)))
 c.ensures('declarations-emit-no-code', 'len(emitted(self)) == 0')
+c.ensures('declared-in-the-scope-in-effect', 'old(self._context._in_routine) ==> len(globals_added(self)) == 0')
 
 
 # ---- operands
@@ -203,6 +204,7 @@ c.ensures('only-at-the-top-level-of-the-script', 'old(self._nesting) > 0 ==> fal
 c.ensures('template-shape', "result is True ==> len(emitted(self)) == 3 and instr(emitted(self)[0], 'ROUTINE') and instr(emitted(self)[-1], 'END') and is_seg(emitted(self)[1], 'command')")
 c.ensures('template-names', "result is True ==> emitted(self)[0].param0 is name and emitted(self)[-1].param0 is name")
 c.ensures('leaves-the-routine-scope', 'result is True ==> not self._context._in_routine')
+c.ensures('parameters-are-local-to-the-routine', 'len(globals_added(self)) <= 1 and all(n is name for n in globals_added(self))')
 
 # ---- dispatch
 c = method('_command', serves=('C06', 'C01'), uses=('parser', 'dispatch'))
